@@ -156,7 +156,7 @@ impl Decoder for LinesCodec {
 
 }
 
-//@extract file=actix-codec/src/lines.rs item="fn try_into_utf8" ret=r props=C15
+//@extract file=actix-codec/src/lines.rs item="fn try_into_utf8" ret=r props=C15 closures=1
 //@spec
     ensures
         r.is_ok() <==> is_utf8(buf@),
